@@ -263,7 +263,7 @@ func verifEvalNumber(src []byte, ctx *hcl.EvalContext) (int64, bool, bool) {
 // filter: in range the prescribed element comes back, out of range / unknown key gives an
 // error diagnostic and never a value.
 func H_c18_access() {
-	form := nondet_choice("form", 6)
+	form := nondet_choice("form", 7)
 	d := nondet_u8("digit")
 	verif_assume(d >= '0')
 	verif_assume(d <= '9')
@@ -319,6 +319,21 @@ func H_c18_access() {
 		} else {
 			verif_assert(n == 2, "elements not matching the filter stay in order")
 		}
+	case 6: // a splat over null is the empty tuple (known, length 0), whatever follows it
+		src := append(append([]byte("(null[*])[*].a"), ' ', '!', '=', ' '), d)
+		expr, diags := ParseExpression(src, "e", hcl.Pos{Byte: 0, Line: 1, Column: 1})
+		verif_assert(!diags.HasErrors(), "a splat over null parses")
+		if !diags.HasErrors() {
+			v, vd := expr.Value(nil)
+			verif_assert(!vd.HasErrors(), "comparing a splat over null with a number evaluates")
+			verif_assert(v.IsKnown(), "a splat over null is a known value (the empty tuple)")
+			if v.IsKnown() {
+				verif_assert(v.Type() == cty.Bool, "an inequality is a boolean")
+				if v.Type() == cty.Bool {
+					verif_assert(v.True(), "the empty tuple differs from every number")
+				}
+			}
+		}
 	case 5: // splat then index
 		// (a full splat takes the index operators that follow it into the per-element traversal,
 		// so the splat is parenthesised before indexing its result)
@@ -351,7 +366,7 @@ func verifPlainChar(name string) byte {
 // two-character string variable s: interpolation, strip markers, if/else and for directives,
 // plain and indented heredocs produce exactly the text the template rules prescribe.
 func H_c18_template() {
-	form := nondet_choice("form", 10)
+	form := nondet_choice("form", 11)
 	p, q := verifPlainChar("P"), verifPlainChar("Q")
 	sb := nondet_bytes("s", 2)
 	for _, c := range sb {
@@ -403,6 +418,9 @@ func H_c18_template() {
 	case 9: // left strip marker: only the literal right before it
 		src = append(append([]byte{'"', p, ' '}, "${s} ${~ s}"...), q, '"')
 		want = string([]byte{p}) + " " + s + s + string([]byte{q})
+	case 10: // indented heredoc with a line that starts in column 0 with an interpolation: nothing is stripped
+		src = append(append(append(append([]byte("<<-EOTX\n    "), p), "\n${s}\n    "...), q, '\n'), "EOTX\n"...)
+		want = "    " + string([]byte{p}) + "\n" + s + "\n    " + string([]byte{q}) + "\n"
 	case 5: // heredoc: every line up to the marker, newlines kept (the marker is longer than any line)
 		src = append(append(append(append([]byte("<<EOTX\n"), p), "${s}\n"...), q, '\n'), "EOTX\n"...)
 		want = string([]byte{p}) + s + "\n" + string([]byte{q}) + "\n"
